@@ -53,8 +53,8 @@ type c07Prog struct {
 var c07Muts = []string{
 	"payload-flip", "payload-insert", "payload-delete", "payload-set", "payload-ws-replace", "payload-ws-insert", "payload-ws-delete", "payload-append-nl",
 	"logid",
-	"next-drop", "next-add", "next-swap", "next-replace", "next-move-to-refs",
-	"refs-drop", "refs-add", "refs-swap", "refs-replace",
+	"next-drop", "next-add", "next-add-dup", "next-swap", "next-replace", "next-move-to-refs",
+	"refs-drop", "refs-add", "refs-add-dup", "refs-swap", "refs-replace",
 	"v", "clock-id", "clock-time+1", "clock-time-1", "clock-time-0", "clock-time-set",
 	"key-other-writer", "key-flip", "key-truncate", "key-extended", "key-garbage", "key-cleared", "sig-other-entry", "sig-flip", "sig-truncate", "sig-other-writer-same-content",
 	// a field replaced by its "empty" value
@@ -249,6 +249,24 @@ func runC07(tb ev.TB, p c07Prog) ev.Result {
 			return skip("same")
 		}
 		m.SetPayload(np)
+	case "next-add-dup", "refs-add-dup":
+		// a link that is already in the list is added once more (at a generated position)
+		list := append([]cid.Cid(nil), e.GetNext()...)
+		if p.Mut == "refs-add-dup" {
+			list = append([]cid.Cid(nil), e.GetRefs()...)
+		}
+		touchedList = len(list)
+		if len(list) == 0 {
+			return skip("empty-list")
+		}
+		dup := list[p.Arg%len(list)]
+		at := p.Arg2 % (len(list) + 1)
+		list = append(list[:at:at], append([]cid.Cid{dup}, list[at:]...)...)
+		if p.Mut == "next-add-dup" {
+			m.SetNext(list)
+		} else {
+			m.SetRefs(list)
+		}
 	case "logid":
 		m.SetLogID(p.LogID + string(rune('a'+p.Arg%26)))
 	case "next-drop", "next-swap", "next-replace", "next-move-to-refs", "refs-drop", "refs-swap", "refs-replace":
